@@ -13,6 +13,7 @@ import (
 	"bytes"
 	"fmt"
 	"math"
+	"os"
 	"time"
 
 	"gitlab.com/gomidi/midi/v2/drivers"
@@ -328,6 +329,72 @@ func twoTakes(seq []ls.SMsg, bpm float64, res smf.MetricTicks) {
 	ctx.Add("two_take_recordings", 1)
 }
 
+// recordTo: smf.RecordTo saves takes of different lengths under the same file
+// name, longer ones first: every saved file must be a valid SMF that holds
+// exactly its own take.
+func recordTo() {
+	dir, err := os.MkdirTemp(os.Getenv("VERIF_WORK"), "c13-recordto-")
+	if err != nil {
+		ctx.Guard(false, "no temp dir: %v", err)
+		return
+	}
+	defer os.RemoveAll(dir)
+	path := dir + "/take.mid"
+	for _, seq := range [][]int{{6, 1}, {1, 6, 2}, {40, 3, 3}, {0, 5, 0}} {
+		os.Remove(path)
+		for ti, n := range seq {
+			ctx.Eval()
+			ctx.Add("record_to_takes", 1)
+			vtime.Reset()
+			drv := testdrv.New("recto")
+			ins, _ := drv.Ins()
+			outs, _ := drv.Outs()
+			outs[0].Open()
+			var stop func() error
+			var rerr error
+			c := engine.Catch(func() { stop, rerr = smf.RecordTo(ins[0], 120, path) })
+			if c.Panicked || rerr != nil {
+				ctx.Violation("record-to:start", map[string]interface{}{"kind": "record-to", "takes": seq, "what": fmt.Sprintf("RecordTo failed: %v %s", rerr, c.Value)})
+				return
+			}
+			var sent [][]byte
+			for i := 0; i < n; i++ {
+				m := []byte{0x90 + byte(ti), byte(40 + i), 100}
+				drv.Sleep(10 * time.Millisecond)
+				outs[0].Send(m)
+				sent = append(sent, m)
+			}
+			var serr error
+			c = engine.Catch(func() { serr = stop() })
+			if c.Panicked || serr != nil {
+				ctx.Violation("record-to:stop", map[string]interface{}{"kind": "record-to", "takes": seq, "what": fmt.Sprintf("the stop function failed: %v %s", serr, c.Value)})
+				return
+			}
+			data, _ := os.ReadFile(path)
+			f, perr := refsmf.Parse(data, refsmf.Strict)
+			if perr != nil {
+				ctx.Violation("record-to:invalid-file", map[string]interface{}{"kind": "record-to", "takes": seq, "take": ti,
+					"what": fmt.Sprintf("take %d of %v (%d messages) saved under the same name: the file (%d bytes) is not a valid SMF: %v", ti+1, seq, n, len(data), perr)})
+				return
+			}
+			var got [][]byte
+			for _, tr := range f.Tracks {
+				for _, e := range tr {
+					if len(e.Msg) > 0 && e.Msg[0] >= 0x80 && e.Msg[0] < 0xF0 {
+						got = append(got, e.Msg)
+					}
+				}
+			}
+			if fmt.Sprint(got) != fmt.Sprint(sent) {
+				ctx.Violation("record-to:content", map[string]interface{}{"kind": "record-to", "takes": seq, "take": ti,
+					"what": fmt.Sprintf("take %d of %v: the file holds %d channel messages, %d were recorded", ti+1, seq, len(got), len(sent))})
+				return
+			}
+			ctx.NontrivialN(1)
+		}
+	}
+}
+
 func space(first int) {
 	maxDepth := ctx.Pick(3, 4)
 	seq := make([]ls.SMsg, maxDepth)
@@ -509,7 +576,7 @@ func main() {
 	ctx.Assume("which messages 'arrive' is decided by the reference receiver (DESIGN.md appendix A) fed with the bytes sent; whether non-channel messages are stored (as valid events) or dropped is not judged, only that the file stays valid")
 	ctx.Assume("timing tolerance: one tick per stored delta up to the message (each delta is rounded separately)")
 	ctx.Jobs("record", len(alphabet), func(j int) { space(j) })
-	ctx.Jobs("two-ports", 1, func(int) { twoRecordings() })
+	ctx.Jobs("two-ports", 1, func(int) { twoRecordings(); recordTo() })
 	ctx.Set("message_alphabet", len(alphabet))
 	ctx.Set("tempi", tempi)
 	ctx.Set("gaps_ms", gaps)
@@ -530,6 +597,10 @@ func replay() {
 			}
 		}
 		twoTakes(seq, m["bpm"].(float64), smf.MetricTicks(m["resolution"].(float64)))
+		ctx.Finish("replay")
+	}
+	if m["kind"] == "record-to" {
+		recordTo()
 		ctx.Finish("replay")
 	}
 	if m["kind"] == "two-recordings" {
